@@ -44,6 +44,64 @@ impl Scenario {
             Scenario::Cli(c) => J::obj().set("kind", J::s("cli")).set("cli", c.to_j()),
         }
     }
+    /// compact, human-readable form used for the `samples` of the evidence file (replay files use `to_j`)
+    pub fn sample_j(&self) -> J {
+        match self {
+            Scenario::Cli(c) => c.to_j(),
+            Scenario::Session(s) => {
+                let xml = |d: &crate::dom::Doc| J::s(String::from_utf8_lossy(&d.ser()).to_string());
+                let mut o = J::obj();
+                if !s.docs.is_empty() {
+                    o.put("documents", J::Arr(s.docs.iter().map(xml).collect()));
+                }
+                if s.alts.iter().any(|a| a.is_some()) {
+                    o.put("rewritten_twins", J::Arr(s.alts.iter().map(|a| a.as_ref().map(xml).unwrap_or(J::Null)).collect()));
+                }
+                let reps: Vec<J> = s
+                    .replicas
+                    .iter()
+                    .take(6)
+                    .map(|r| {
+                        let steps: Vec<J> = r
+                            .steps
+                            .iter()
+                            .map(|st| {
+                                let what = match &st.input {
+                                    crate::session::Input::Doc(i) => format!("doc{i}"),
+                                    crate::session::Input::Alt(i) => format!("rewritten{i}"),
+                                    crate::session::Input::Raw(b) => format!("bytes:{}", String::from_utf8_lossy(b).chars().take(120).collect::<String>()),
+                                };
+                                let p = &st.plan;
+                                let how = if p.slice {
+                                    "slice".to_string()
+                                } else {
+                                    format!(
+                                        "chunks={} eintr@{:?} bufreader={} fault={}",
+                                        p.cuts.len() + 1,
+                                        p.eintr,
+                                        p.bufreader_cap,
+                                        match &p.fault {
+                                            crate::simreader::Fault::None => "none".to_string(),
+                                            crate::simreader::Fault::Io { at, kind } => format!("io:{kind}@{at}"),
+                                            crate::simreader::Fault::Truncate { at } => format!("eof@{at}"),
+                                        }
+                                    )
+                                };
+                                J::s(format!("{what} via {how} cfg={}", st.cfg))
+                            })
+                            .collect();
+                        J::obj().set("role", J::s(&r.role)).set("entropy", J::s(format!("{:032x}", r.entropy))).set("deliveries", J::Arr(steps))
+                    })
+                    .collect();
+                if s.replicas.len() > 6 {
+                    o.put("replicas_total", J::Int(s.replicas.len() as i64));
+                }
+                o.put("replicas", J::Arr(reps));
+                o.put("render_options", J::Arr(s.opts.iter().map(|r| r.to_j()).collect()));
+                o
+            }
+        }
+    }
     pub fn from_j(j: &J) -> Result<Scenario, String> {
         match j.str_of("kind")?.as_str() {
             "session" => Ok(Scenario::Session(Session::from_j(j.get("session").ok_or("no session")?)?)),
